@@ -285,6 +285,10 @@ type model struct {
 	ref      *refNotary
 	thorough bool
 	capture  bool
+	// diverged: an earlier call of the path was answered differently from the reference. The violation was
+	// reported at that call (minimal witness); the path is not extended, so one defect does not cascade
+	// into a violation at every later call.
+	diverged bool
 	pre      snapshot
 	post     snapshot
 	exp      expectation
@@ -302,10 +306,14 @@ func (m *model) Init() {
 	m.fx.init()
 	m.ref = newRef()
 	m.capture = false
+	m.diverged = false
 }
 
 // Enabled lists the calls a client can make in the current state.
 func (m *model) Enabled() []string {
+	if m.diverged {
+		return nil
+	}
 	out := []string{
 		"Propose:c1", "Propose:s1", "Propose:c1x",
 		"Confirm:B", "Confirm:X", "Confirm:none",
@@ -424,6 +432,9 @@ func (m *model) Apply(ev string) string {
 		}
 	}
 	m.rp = rp
+	if rp.class != m.exp.class {
+		m.diverged = true
+	}
 	if capture {
 		m.post = m.fx.snap()
 	}
